@@ -184,6 +184,8 @@ def _abstract_func(st, name):
 
 def call_abstract(eng, st, f, pos, kw):
     """the wrapped setter: recorded in the ghost trace; may return or raise"""
+    if f.a != "the_attr":
+        return None
     tr = st.ghost.get("trace", ())
     s2 = st.setghost("trace", tr + (("call", f.a, tuple(pos)),))
     return [("ok", s2, NONE), ("raise", s2, VExc("ValueError"))]
